@@ -11,7 +11,7 @@ import time
 
 from hypothesis import strategies as st
 
-from vlib.e2e import client, httpref, icapstub
+from vlib.e2e import client, httpref, icapstub, origin as originmod
 from vlib.e2e.env import ProxyEnv
 from vlib.e2e_runner import Result
 
@@ -66,6 +66,9 @@ def strategy(tp):
         "segments": st.lists(st.one_of(st.integers(1, 80), st.integers(100, 5000)), min_size=0, max_size=5),
         "pauses": st.lists(st.sampled_from([0, 0, 1, 5]), min_size=0, max_size=5),
         "client_version": st.sampled_from(["HTTP/1.1", "HTTP/1.1", "HTTP/1.0"]),
+        # REQMOD only: a large request body towards an origin that reads slowly through a tiny receive window, so the proxy's
+        # pipes between the ICAP transaction and the server side fill up (a consumer that accepts less than it is offered)
+        "pushback": st.sampled_from([None, None, None, None, 400000, 1000000, 2500000]),
     })
 
 
@@ -84,12 +87,14 @@ def setup(ctx):
         lines.append("adaptation_access %s allow a_%s" % (svc_name(i), svc_name(i)))
     env = ProxyEnv(ctx, conf="\n".join(lines) + "\n", cache_mem="0 MB")
     env.icap = stub
+    env.slow_origin = originmod.Origin(env.clock, rcvbuf=4096)
     return env
 
 
 def teardown(env):
     try:
         env.icap.stop()
+        env.slow_origin.stop()
     finally:
         env.close()
 
@@ -146,7 +151,9 @@ def execute(env, sc):
     vec, bypass, pv, a204 = SERVICES[sc["svc"]]
     name = svc_name(sc["svc"])
     path = "/%s/%s" % (name, ns)
-    V = httpref.keyed_stream("V" + ns, sc["vlen"])
+    pushback = sc.get("pushback") if vec == "reqmod" and not sc["fault"] else None
+    origin = env.slow_origin if pushback else env.origin
+    V = httpref.keyed_stream("V" + ns, pushback or sc["vlen"])
     null_body = sc["alen"] is None
     A = b"" if null_body else httpref.keyed_stream("A" + ns, sc["alen"])
     satisfy = vec == "reqmod" and sc["satisfy"] and sc["mode"] == "200"
@@ -163,7 +170,7 @@ def execute(env, sc):
                 b["satisfy"] = satisfy
             else:
                 first = txn.req_hdr.split(b"\r\n", 1)[0].decode("latin-1")
-                hostport = "127.0.0.1:%d" % env.origin.port
+                hostport = "127.0.0.1:%d" % origin.port
                 if not cl:
                     cl = "Transfer-Encoding: chunked\r\n"
                 b["http_head"] = "%s\r\nHost: %s\r\nX-C60-A: %s\r\n%s\r\n" % (first, hostport, ns, cl)
@@ -187,15 +194,18 @@ def execute(env, sc):
         beh = {"status": 200, "headers": vhead, "body_b64": base64.b64encode(V).decode(), "framing": sc["vframing"], "chunks": [7000]}
     else:
         beh = {"status": 200, "headers": [["X-C60-Origin", ns], ["Cache-Control", "no-store"]], "body_b64": base64.b64encode(b"origin-ok").decode()}
-    env.origin.script(path, beh)
+    if pushback:
+        beh["slow_read"] = {"bytes": 16384, "pause_ms": 4, "initial_stall_ms": 400}
+        r.label("pushback")
+    origin.script(path, beh)
     # ---- client
-    url = env.url(path)
+    url = "http://127.0.0.1:%d%s" % (origin.port, path)
     if vec == "respmod":
-        lines = ["GET %s %s" % (url, sc["client_version"]), "Host: 127.0.0.1:%d" % env.origin.port, "Connection: close"]
+        lines = ["GET %s %s" % (url, sc["client_version"]), "Host: 127.0.0.1:%d" % origin.port, "Connection: close"]
         data = ("\r\n".join(lines) + "\r\n\r\n").encode()
         method = b"GET"
     else:
-        lines = ["POST %s HTTP/1.1" % url, "Host: 127.0.0.1:%d" % env.origin.port, "X-C60-V: " + ns, "Content-Type: application/octet-stream", "Connection: close"]
+        lines = ["POST %s HTTP/1.1" % url, "Host: 127.0.0.1:%d" % origin.port, "X-C60-V: " + ns, "Content-Type: application/octet-stream", "Connection: close"]
         if sc["vframing"] == "chunked":
             lines.append("Transfer-Encoding: chunked")
             payload = icapstub.chunked(V, [9000])
@@ -254,7 +264,7 @@ def execute(env, sc):
             outcome = "error" if is_squid_error else "origin-reply"
     if vec == "reqmod":
         time.sleep(0.02)
-        arrs = env.origin.arrivals_for(path)
+        arrs = origin.arrivals_for(path)
         r.label("origin-arrivals-%d" % min(len(arrs), 3))
         kinds = []
         for a in arrs:
